@@ -781,3 +781,216 @@ func runC15Applies(c *Ctx) {
 		c.ok("(*Config).PathConfigs|result", fn.Pos(), "every return hands back the slice the matching entries were appended to (nil only for a nil configuration)")
 	}
 }
+
+// ---- C16.ONCE: every diagnostic of the slice reaches the renderer ----
+
+// everyElementReaches: fn has exactly one loop over its slice parameter that (a) starts at the first element and steps by
+// one up to len(slice), (b) is left only at its header and (c) passes, on every way round, an instruction accepted by sink
+// for the element the loop stands at. Returns that instruction and the loop header, or why not.
+func everyElementReaches(fn *ssa.Function, slice *ssa.Parameter, sink func(in ssa.Instruction, elem ssa.Value) bool) (ssa.Instruction, *ssa.BasicBlock, string) {
+	var head *ssa.BasicBlock
+	var elems []*ssa.UnOp
+	eachInstr(fn, func(b *ssa.BasicBlock, _ int, in ssa.Instruction) {
+		ld, ok := in.(*ssa.UnOp)
+		if !ok || ld.Op != token.MUL {
+			return
+		}
+		ia, ok := ld.X.(*ssa.IndexAddr)
+		if !ok || ia.X != ssa.Value(slice) {
+			return
+		}
+		elems = append(elems, ld)
+	})
+	if len(elems) == 0 {
+		return nil, nil, "no element of the slice is read"
+	}
+	for _, ld := range elems {
+		h := innermostLoopOf(fn, ld.Block())
+		if h == nil {
+			return nil, nil, "an element of the slice is read outside a loop (a fixed position)"
+		}
+		if head != nil && h != head {
+			return nil, nil, "the elements of the slice are read in more than one loop"
+		}
+		head = h
+	}
+	body := naturalLoop(head)
+	// the index: the value the header compares with len(slice)
+	ifi, ok := head.Instrs[len(head.Instrs)-1].(*ssa.If)
+	if !ok {
+		return nil, head, "the loop over the slice has no condition at its head"
+	}
+	cond, ok := ifi.Cond.(*ssa.BinOp)
+	if !ok || cond.Op != token.LSS {
+		return nil, head, "the loop over the slice does not run while index < len(slice)"
+	}
+	if call, ok := cond.Y.(*ssa.Call); !ok || len(call.Call.Args) != 1 || call.Call.Args[0] != ssa.Value(slice) {
+		return nil, head, "the bound of the loop is not len of the slice itself"
+	} else if bi, ok := call.Call.Value.(*ssa.Builtin); !ok || bi.Name() != "len" {
+		return nil, head, "the bound of the loop is not len of the slice itself"
+	}
+	idx := cond.X
+	var phi *ssa.Phi
+	d := int64(0)
+	switch x := idx.(type) {
+	case *ssa.Phi:
+		phi = x
+	case *ssa.BinOp:
+		if k, ok := constInt(x.Y); ok && x.Op == token.ADD {
+			phi, _ = x.X.(*ssa.Phi)
+			d = k
+		}
+	}
+	if phi == nil || phi.Block() != head {
+		return nil, head, "the index of the loop is not a counter kept at its head"
+	}
+	for i, e := range phi.Edges {
+		if body[head.Preds[i]] {
+			// next value: counter + 1
+			next, ok := e.(*ssa.BinOp)
+			if e == idx && d == 1 {
+				continue
+			}
+			if !ok || next.Op != token.ADD || next.X != ssa.Value(phi) {
+				return nil, head, "the counter of the loop is not advanced by one"
+			}
+			if k, ok := constInt(next.Y); !ok || k != 1 {
+				return nil, head, "the counter of the loop is not advanced by one"
+			}
+			continue
+		}
+		k, ok := constInt(e)
+		if !ok || k+d != 0 {
+			return nil, head, fmt.Sprintf("the loop does not start at the first element (first index %d)", k+d)
+		}
+	}
+	if ex := loopSideExit(head); ex != nil {
+		at := fn.Prog.Fset.Position(exitPos(ex))
+		return nil, head, fmt.Sprintf("the loop over the slice is left from inside its body (break or return at line %d)", at.Line)
+	}
+	for _, ld := range elems {
+		if ld.X.(*ssa.IndexAddr).Index != idx {
+			return nil, head, "an element is read at another position than the one the loop stands at"
+		}
+	}
+	var found ssa.Instruction
+	for b := range body {
+		every := true
+		for _, latch := range head.Preds {
+			if body[latch] && !(b == latch || b.Dominates(latch)) {
+				every = false
+			}
+		}
+		if !every {
+			continue
+		}
+		for _, in := range b.Instrs {
+			for _, ld := range elems {
+				if found == nil && sink(in, ld) {
+					found = in
+				}
+			}
+		}
+	}
+	if found == nil {
+		return nil, head, "no way round the loop is certain to hand the element on (the hand-over is missing or conditional)"
+	}
+	return found, head, ""
+}
+
+func runC16OnceEvery(c *Ctx) {
+	p := c.P
+	// default and -oneline mode: printErrors pretty-prints every element
+	if fn := p.Method("Linter", "printErrors"); fn == nil {
+		c.anchorMissing("(*Linter).printErrors")
+	} else {
+		construct := "(*Linter).printErrors|every diagnostic printed"
+		var slice *ssa.Parameter
+		for _, q := range fn.Params {
+			if typeStr(q.Type()) == "[]*Error" {
+				slice = q
+			}
+		}
+		if slice == nil {
+			c.undecided(construct, fn.Pos(), "no []*Error parameter")
+		} else {
+			in, _, why := everyElementReaches(fn, slice, func(in ssa.Instruction, elem ssa.Value) bool {
+				call, ok := in.(*ssa.Call)
+				if !ok {
+					return false
+				}
+				g := staticCallee(&call.Call)
+				return g != nil && FuncName(g) == "(*Error).PrettyPrint" && len(call.Call.Args) > 0 && call.Call.Args[0] == elem
+			})
+			if why != "" {
+				c.bad(construct, fn.Pos(), why+": the output is not the list of diagnostics the linter returns")
+			} else {
+				c.ok(construct, in.Pos(), "one loop from the first to the last element, left only at its header, pretty-prints the element on every way round")
+			}
+		}
+	}
+	// -format mode: PrintErrors turns every element into a template record and prints the slice of all of them
+	if fn := p.Method("ErrorFormatter", "PrintErrors"); fn == nil {
+		c.anchorMissing("(*ErrorFormatter).PrintErrors")
+	} else {
+		construct := "(*ErrorFormatter).PrintErrors|every diagnostic reaches the template"
+		var slice *ssa.Parameter
+		for _, q := range fn.Params {
+			if typeStr(q.Type()) == "[]*Error" {
+				slice = q
+			}
+		}
+		if slice == nil {
+			c.undecided(construct, fn.Pos(), "no []*Error parameter")
+			return
+		}
+		var app *ssa.Call
+		in, head, why := everyElementReaches(fn, slice, func(in ssa.Instruction, elem ssa.Value) bool {
+			call, ok := in.(*ssa.Call)
+			if !ok {
+				return false
+			}
+			if bi, ok := call.Call.Value.(*ssa.Builtin); !ok || bi.Name() != "append" || len(call.Call.Args) != 2 {
+				return false
+			}
+			vals, ok := variadicArgs(call.Call.Args[1])
+			if !ok || len(vals) != 1 {
+				return false
+			}
+			rec, ok := vals[0].(*ssa.Call)
+			if !ok {
+				return false
+			}
+			g := staticCallee(&rec.Call)
+			if g == nil || FuncName(g) != "(*Error).GetTemplateFields" || rec.Call.Args[0] != elem {
+				return false
+			}
+			app = call
+			return true
+		})
+		if why == "" {
+			// what is printed is the slice those appends built
+			calls := findCalls(fn, "(*ErrorFormatter).Print")
+			if len(calls) != 1 {
+				why = fmt.Sprintf("%d calls of Print", len(calls))
+			} else {
+				arg := calls[0].Common().Args[2]
+				ph, ok := arg.(*ssa.Phi)
+				if !ok || ph.Block() != head || app.Call.Args[0] != ssa.Value(ph) {
+					why = "the slice handed to Print is not the one every record was appended to"
+				} else {
+					for i, e := range ph.Edges {
+						if naturalLoop(head)[head.Preds[i]] && e != ssa.Value(app) {
+							why = "the slice of records is not carried round the loop by the append alone"
+						}
+					}
+				}
+			}
+		}
+		if why != "" {
+			c.bad(construct, fn.Pos(), why+": the template does not receive one record per diagnostic, in order")
+		} else {
+			c.ok(construct, in.Pos(), "one loop from the first to the last element, left only at its header, appends the record of the element on every way round; Print gets that slice")
+		}
+	}
+}
